@@ -48,6 +48,9 @@ M=[
  ("C14","no-request","node/pkg/processor/cleanup.go","				if err := common.PostObservationRequest(p.obsvReqSendC, req); err != nil {","				if err := error(nil); s.retryCount%2 == 0 && common.PostObservationRequest(p.obsvReqSendC, req) != nil {"),
  ("C15","action-id","node/pkg/vaa/payloads.go","	MustWrite(buf, binary.BigEndian, uint8(0xf1))","	MustWrite(buf, binary.BigEndian, uint8(0xf2))"),
  ("C15","seq-width","node/pkg/vaa/payloads.go","	MustWrite(buf, binary.BigEndian, uint16(len(b.Sequences)))","	MustWrite(buf, binary.BigEndian, uint8(len(b.Sequences)))"),
+ ("C15","sol-transferfees-offset","ethereum/contracts/GovernanceStructs.sol","tf.amount = encodedTransferFees.toUint256(index);\n        index += 32;","tf.amount = encodedTransferFees.toUint256(index);\n        index += 31;"),
+ ("C15","sol-registerchain-width","ethereum/contracts/bridge/BridgeGovernance.sol","chain.emitterChainID = encoded.toUint16(index);\n        index += 2;","chain.emitterChainID = encoded.toUint8(index);\n        index += 2;"),
+ ("C04","ral-body-offset","alephium/contracts/governance.ral","let body = byteVecSlice!(data, 6 + signatureSize * 66, size!(data))","let body = byteVecSlice!(data, 6 + signatureSize * 65, size!(data))"),
  ("C16","ack-before-commit","node/pkg/db/db.go","	err := d.db.Update(func(txn *badger.Txn) error {\n		if err := txn.Set(VaaIDFromVAA(v).Bytes(), b); err != nil {\n			return err\n		}\n		return nil\n	})\n","	var err error\n	go func() {\n		_ = d.db.Update(func(txn *badger.Txn) error {\n			return txn.Set(VaaIDFromVAA(v).Bytes(), b)\n		})\n	}()\n"),
  ("C17","remember-on-drop","node/cmd/guardiand/reobserve.go","				default:\n					logger.Warn(\"failed to send reobservation request to watcher\",","				default:\n					cache[r] = clock.Now()\n					logger.Warn(\"failed to send reobservation request to watcher\","),
  ("C17","window-31","node/cmd/guardiand/reobserve.go","				if now.Sub(t) > 11*time.Minute {","				if now.Sub(t) > 31*time.Minute {"),
